@@ -5,6 +5,7 @@ package auth
 import (
 	"encoding/hex"
 	"fmt"
+	"strings"
 
 	"cosmossdk.io/math"
 	codectypes "github.com/cosmos/cosmos-sdk/codec/types"
@@ -271,6 +272,80 @@ func (w *world) build(kind string, s, c, n int) sdk.Msg {
 			Fees: []treasurytypes.RelayerFeeSetting_FeeSetting{{Multiplicator: math.LegacyMustNewDecFromStr("7.5"), ChainReferenceId: chain}}}}
 	}
 	panic("unknown kind " + kind)
+}
+
+// ---- key collisions ------------------------------------------------------------------------------------------
+// keyVariant spells the key of an existing object differently: "eq" byte for byte, "case" with the letter case changed
+// (upper case if the key has no upper-case letter, lower case otherwise), "lws" / "tws" with a leading / trailing blank,
+// "dot" with a "./" segment, "dotdot" with a "x/../" segment in front.
+func keyVariant(key, v string) string {
+	switch v {
+	case "eq":
+		return key
+	case "case":
+		if key == strings.ToLower(key) {
+			return strings.ToUpper(key)
+		}
+		return strings.ToLower(key)
+	case "lws":
+		return " " + key
+	case "tws":
+		return key + " "
+	case "dot":
+		return "./" + key
+	case "dotdot":
+		return "x/../" + key
+	}
+	panic("unknown key variant " + v)
+}
+
+// buildK is build for the kinds that create or upsert an object under a sender-chosen key: the key is variant v of the
+// key of the object the principal n already owns. It also returns the key used.
+func (w *world) buildK(kind string, s, c, n int, v string) (sdk.Msg, string) {
+	md := valsettypes.MsgMetadata{Creator: w.addr(c).String(), Signers: []string{w.addr(s).String()}}
+	switch kind {
+	case "ScCreateJob": // n's job id
+		key := keyVariant(w.jobID[n], v)
+		return &schedtypes.MsgCreateJob{Metadata: md, Job: &schedtypes.Job{ID: key, Owner: w.addr(c), Routing: schedtypes.Routing{ChainType: "evm", ChainReferenceID: chain},
+			Definition: []byte(`{"abi":"5b5d","address":"0x00000000000000000000000000000000000000dd"}`), Payload: []byte(`{"hexPayload":"deadbeef"}`), IsPayloadModifiable: true}}, key
+	case "TfCreateDenom": // n's sub-denom "sa"; the path variants walk from the creator's namespace into n's
+		key := keyVariant("sa", v)
+		if v == "dotdot" {
+			key = "../" + w.addr(n).String() + "/sa"
+		}
+		return &tftypes.MsgCreateDenom{Subdenom: key, Metadata: md}, key
+	case "SkSetERC20ToTokenDenom": // the creator's unbound denom "su" onto the ERC-20 n's denom is bound to
+		key := keyVariant(boundERC20(n), v)
+		return &st.MsgSetERC20ToTokenDenom{Metadata: md, Denom: "factory/" + w.addr(c).String() + "/su", ChainReferenceId: chain, Erc20: key}, key
+	case "PaAddLicenseFor": // n's address (n holds a licence)
+		key := keyVariant(w.addr(n).String(), v)
+		return &palomatypes.MsgAddLightNodeClientLicense{Metadata: md, ClientAddress: key, Amount: sdk.NewInt64Coin(env.BondDenom, 1_000_000), VestingMonths: 12}, key
+	case "VaAddExternalChainInfo": // n's registered external address, with the creator's fresh public key
+		key := keyVariant(ethAddr(w.ethOf(n)).Hex(), v)
+		pk := ethAddr(w.newEth[c-1]).Bytes()
+		return &valsettypes.MsgAddExternalChainInfoForValidator{Metadata: md, ChainInfos: []*valsettypes.ExternalChainInfo{{ChainType: "evm", ChainReferenceID: chain, Address: key, Pubkey: pk}}}, key
+	case "TrUpsertRelayerFee": // n's validator address
+		key := keyVariant(w.valoper(n).String(), v)
+		return &treasurytypes.MsgUpsertRelayerFee{Metadata: md, FeeSetting: &treasurytypes.RelayerFeeSetting{ValAddress: key,
+			Fees: []treasurytypes.RelayerFeeSetting_FeeSetting{{Multiplicator: math.LegacyMustNewDecFromStr("7.5"), ChainReferenceId: chain}}}}, key
+	case "TfSetDenomMetadata": // n's denom as the base of the metadata; path variants inside the factory path
+		d := w.denomOf(n)
+		key := keyVariant(d, v)
+		switch v {
+		case "dot":
+			key = "factory/./" + strings.TrimPrefix(d, "factory/")
+		case "dotdot":
+			key = "factory/" + w.addr(c).String() + "/../" + strings.TrimPrefix(d, "factory/")
+		}
+		return &tftypes.MsgSetDenomMetadata{Metadata: md, DenomMetadata: banktypes.Metadata{Description: "set", Base: key, Display: key, Name: "N", Symbol: "SET",
+			DenomUnits: []*banktypes.DenomUnit{{Denom: key, Exponent: 0}}}}, key
+	}
+	panic("kind without a sender-chosen key: " + kind)
+}
+
+// boundERC20: the ERC-20 contract the denom factory/<p>/sa is bound to in the key-collision world.
+func boundERC20(p int) string {
+	return fmt.Sprintf("0x%040x", 0xabcdef0000+p) // hex letters, so that a case variant exists
 }
 
 func (w *world) uscOf(n int) uint64 {
